@@ -430,10 +430,16 @@ AdvanceTo(nb, asm0, alloc0, flags0, end0, chb0) ==
 RECURSIVE ResyncStop(_, _)
 ResyncStop(id, upto) == IF id = upto \/ Slot(id) \in entryFlag THEN id ELSE ResyncStop(PAdd(id, 1), upto)
 
+(* FALSE; overridden by the non-vacuity configuration MC_RecvSync_endwalk.cfg: the walk is bounded by the receiver's end id
+   instead of the sender's next id and jumps to the latter when it finds no entry - the slip of the seeded change C02_b7,
+   harmless for a sync frame that arrives in order, fatal for one that arrives after newer data *)
+ResyncBoundedByEnd == FALSE
+ResyncTarget(npid) == IF ResyncBoundedByEnd THEN (LET s == ResyncStop(rBase, rEnd) IN IF s = rEnd THEN npid ELSE s) ELSE ResyncStop(rBase, npid)
+
 HandleSync(f) ==
     /\ rfBase' = IF f.nfid # None /\ FSub(f.nfid, rfBase) > 0 /\ FSub(f.nfid, rfBase) <= FW THEN f.nfid ELSE rfBase
     /\ IF f.npid # None /\ PSub(f.npid, rBase) <= PW
-       THEN LET r == AdvanceTo(ResyncStop(rBase, f.npid), asm, rAlloc, entryFlag, rEnd, chBase) IN
+       THEN LET r == AdvanceTo(ResyncTarget(f.npid), asm, rAlloc, entryFlag, rEnd, chBase) IN
             /\ asm' = r.asm /\ rAlloc' = r.alloc /\ entryFlag' = r.eflags /\ rEnd' = r.end /\ chBase' = r.chb /\ rBase' = r.base
        ELSE UNCHANGED <<asm, rAlloc, entryFlag, rEnd, chBase, rBase>>
     /\ syncReply' = TRUE
